@@ -159,6 +159,8 @@ def judge(res13, res14, job):
                 nt13 = True
             if nt13:
                 t13["nt"] += 1
+                if len(t13["samples"]) < 2 and (ec != 0 or abs(off - ln) <= 1) and ln > 0:
+                    t13["samples"].append({"inputs": w["in"], "expected": "canaries intact; success: first < p <= last, failure: value_too_large and ptr == last", "observed": w["obs"]})
             if ec != 0:
                 continue
             # ---------------- C14: meaning of the text
